@@ -78,6 +78,11 @@ class Tracer:
         self._set(main, "rmspace", types.SimpleNamespace(format_str=self._wrap("rmspace.format_str", real_rmspace.format_str)))
         self._set(main, "textwrap", types.SimpleNamespace(dedent=self._wrap("textwrap.dedent", real_textwrap.dedent),
                                                           indent=self._wrap("textwrap.indent", real_textwrap.indent)))
+        # since repair ffe758f the snippet is re-indented by core.indent (textwrap.indent splits at form feeds etc.):
+        # the same stage of the driver, recorded under the same name
+        core = mods["core"]
+        if hasattr(core, "indent"):
+            self._set(core, "indent", self._wrap("textwrap.indent", core.indent))
         real_multi = main._multi_run_fixes
 
         @functools.wraps(real_multi)
